@@ -7,6 +7,7 @@ from .. import configs
 from ..core import ChoiceSource, HarnessError, Violation, enumerate_scripts, script_hash
 from ..observe import check_split, check_tiling, check_tree_index, leaves, partition_digest
 from ..seams import ExpansionRecorder
+from .. import world
 from ..world import Stats, seam, _jsonable
 
 CORNER_BOXES = {
@@ -50,6 +51,8 @@ def run_script(task, script, expect=None, changed=-1, stats=None, seen=None):
         prev_d = None
         for step in range(task["N"]):
             pos0 = src.pos
+            if world._GUARD:
+                world._GUARD.reset()  # the branch budget is per operation (a worker may have installed the guard earlier)
             lv = _leaf_menu(leaves(P))
             # deepen() is offered while the deepest layer is small (bounds the tree size)
             can_deepen = len(P.get_node_list()[P.get_depth()]) <= DEEPEN_MAX
